@@ -12,6 +12,8 @@
 (*         fh: "default"|"empty"|"star", hm: "drop"|"refuse"|"dangerous",  *)
 (*         ssh: "default"|"empty", pp: BOOLEAN, pa: like fa,               *)
 (*         pline: BOOLEAN (PROXY line before request 1), idx: 1|2,         *)
+(*         decl: BOOLEAN (the address a PROXY line declares is itself in   *)
+(*         forwarded_allow_ips - it is not the peer, so it grants nothing),*)
 (*         wk: "sync"|"gthread"|"async", hs: Seq(header kind)]             *)
 (* obs  = [out: "app"|"reject", scheme, sn (SCRIPT_NAME is not empty, i.e.   *)
 (*         it was taken from some request header), addr: "peer"|"declared", amb (some environ variable     *)
@@ -23,23 +25,27 @@ EXTENDS Naturals, Sequences, FiniteSets, TLC
 
 CONSTANT Dev
 
-HdrKinds == {"proto_s", "proto_i", "ssl_s", "ssl_i", "proto_us", "sn", "sn_h", "pi", "cu", "ch", "plain"}
+HdrKinds == {"proto_s", "proto_i", "ssl_s", "ssl_i", "proto_us", "sn", "sn_h", "pi", "cu", "ch", "cdot", "plain"}
 SchemeKinds == {"proto_s", "proto_i", "ssl_s", "ssl_i"}
 Secure(h) == h \in {"proto_s", "ssl_s"}
 Underscore(h) == h \in {"proto_us", "sn", "pi", "cu"}
 (* upper-cased field name as parse_headers sees it *)
 NameOf(h) == CASE h \in {"proto_s", "proto_i"} -> "X-FORWARDED-PROTO" [] h \in {"ssl_s", "ssl_i"} -> "X-FORWARDED-SSL"
                [] h = "proto_us" -> "X_FORWARDED_PROTO" [] h = "sn" -> "SCRIPT_NAME" [] h = "sn_h" -> "SCRIPT-NAME"
-               [] h = "pi" -> "PATH_INFO" [] h = "cu" -> "X_CUSTOM" [] h = "ch" -> "X-CUSTOM" [] OTHER -> "ACCEPT"
+               [] h = "pi" -> "PATH_INFO" [] h = "cu" -> "X_CUSTOM" [] h = "ch" -> "X-CUSTOM"
+               [] h = "cdot" -> "X.CUSTOM"      \* another token character between the words: . ~ ! + # $ % & ' * ^ ` |
+               [] OTHER -> "ACCEPT"
 (* environ key it maps to *)
 KeyOf(h) == CASE h \in {"proto_s", "proto_i", "proto_us"} -> "HTTP_X_FORWARDED_PROTO"
               [] h \in {"ssl_s", "ssl_i"} -> "HTTP_X_FORWARDED_SSL"
               [] h \in {"sn", "sn_h"} -> "HTTP_SCRIPT_NAME" [] h = "pi" -> "HTTP_PATH_INFO"
-              [] h \in {"cu", "ch"} -> "HTTP_X_CUSTOM" [] OTHER -> "HTTP_ACCEPT"
+              [] h \in {"cu", "ch"} -> "HTTP_X_CUSTOM" [] h = "cdot" -> "HTTP_X.CUSTOM" [] OTHER -> "HTTP_ACCEPT"
 
 Allowed(peer, setting) == setting = "star" \/ peer = "unix" \/ (peer = "listed" /\ setting = "listed")
-TrustedFwd(c) == Allowed(c.peer, c.fa)
 TrustedPP(c) == Allowed(c.peer, c.pa)
+(* deviation TrustDeclaredAddr: the allow list is looked up with the address the PROXY line declares *)
+PeerTrustedFwd(c) == Allowed(c.peer, c.fa)        \* C08's rule: the connection's peer, nothing else
+TrustedFwd(c) == PeerTrustedFwd(c) \/ ("TrustDeclaredAddr" \in Dev /\ c.pp /\ c.pline /\ c.idx = 1 /\ TrustedPP(c) /\ c.decl)
 InFwdHeaders(c, h) == c.fh = "star" \/ (c.fh = "default" /\ h \in {"sn", "pi"})
 
 -----------------------------------------------------------------------------
@@ -63,8 +69,8 @@ Walk(c, hs, sch, kept, ok) ==
 
 Ambiguous(c, kept) ==
   \E i, j \in DOMAIN kept : /\ KeyOf(kept[i]) = KeyOf(kept[j]) /\ NameOf(kept[i]) # NameOf(kept[j])
-                             /\ ~(Underscore(kept[i]) /\ TrustedFwd(c) /\ InFwdHeaders(c, kept[i]))
-                             /\ ~(Underscore(kept[j]) /\ TrustedFwd(c) /\ InFwdHeaders(c, kept[j]))
+                             /\ ~(Underscore(kept[i]) /\ PeerTrustedFwd(c) /\ InFwdHeaders(c, kept[i]))
+                             /\ ~(Underscore(kept[j]) /\ PeerTrustedFwd(c) /\ InFwdHeaders(c, kept[j]))
 
 (* is the PROXY information in force for this request? *)
 ProxyInForce(c) ==
@@ -99,9 +105,9 @@ Envelope(c, o) ==
   IF o.out = "reject" THEN "ok"                               \* refusing is always safe
   ELSE IF c.hm \in {"drop", "refuse"} /\ o.amb THEN "AmbiguousMapping"
   ELSE IF c.idx = 2 /\ c.wk = "sync" THEN "ok"                 \* (no second request on a sync connection)
-  ELSE IF o.scheme = "https" /\ ~(TrustedFwd(c) /\ c.ssh = "default" /\ HasSecure(c)) THEN "SchemeFromUntrustedPeer"
-  ELSE IF TrustedFwd(c) /\ c.ssh = "default" /\ ConflictingScheme(c) THEN "ConflictingSchemeAccepted"
-  ELSE IF o.sn /\ c.hm # "dangerous" /\ ~(TrustedFwd(c) /\ HasSN(c) /\ InFwdHeaders(c, "sn")) THEN "ScriptNameFromUntrustedPeer"
+  ELSE IF o.scheme = "https" /\ ~(PeerTrustedFwd(c) /\ c.ssh = "default" /\ HasSecure(c)) THEN "SchemeFromUntrustedPeer"
+  ELSE IF PeerTrustedFwd(c) /\ c.ssh = "default" /\ ConflictingScheme(c) THEN "ConflictingSchemeAccepted"
+  ELSE IF o.sn /\ c.hm # "dangerous" /\ ~(PeerTrustedFwd(c) /\ HasSN(c) /\ InFwdHeaders(c, "sn")) THEN "ScriptNameFromUntrustedPeer"
   ELSE IF o.addr = "declared" /\ ~PlineAcceptable(c) THEN "RemoteAddrFromUntrustedPeer"
   ELSE IF c.idx = 1 /\ c.pline /\ ~PlineAcceptable(c) THEN "ProxyLineAcceptedFromUntrustedPeer"
   ELSE IF PlineAcceptable(c) /\ o.addr # "declared" THEN "ProxyAddressNotAppliedToEveryRequest"
@@ -112,11 +118,12 @@ Seqs(K, n) == UNION {[1..k -> K] : k \in 0..n}
 Peers == {"listed", "unlisted", "unix"}
 Allow == {"none", "listed", "star"}
 Base == [peer |-> "listed", fa |-> "listed", fh |-> "default", hm |-> "drop", ssh |-> "default", pp |-> FALSE,
-         pa |-> "listed", pline |-> FALSE, idx |-> 1, wk |-> "sync", hs |-> <<>>]
+         pa |-> "listed", pline |-> FALSE, idx |-> 1, wk |-> "sync", hs |-> <<>>, decl |-> FALSE]
 (* proxy-protocol product (headers <= 1) *)
-CasesA == {[Base EXCEPT !.peer = p, !.pp = pp, !.pa = pa, !.pline = pl, !.idx = i, !.wk = w, !.hs = hs, !.fa = fa] :
+CasesA == {[Base EXCEPT !.peer = p, !.pp = pp, !.pa = pa, !.pline = pl, !.idx = i, !.wk = w, !.hs = hs, !.fa = fa, !.decl = d] :
              p \in Peers, pp \in BOOLEAN, pa \in Allow, pl \in BOOLEAN, i \in {1, 2},
-             w \in {"sync", "gthread", "async"}, hs \in Seqs({"proto_s", "sn", "cu", "plain"}, 1), fa \in {"none", "star"}}
+             w \in {"sync", "gthread", "async"}, hs \in Seqs({"proto_s", "sn", "cu", "plain"}, 1), fa \in Allow,
+             d \in BOOLEAN}
 (* header product (proxy protocol off) *)
 CasesB == {[Base EXCEPT !.peer = p, !.fa = fa, !.fh = fh, !.hm = hm, !.ssh = ssh, !.wk = w, !.hs = hs] :
              p \in Peers, fa \in Allow, fh \in {"default", "empty", "star"}, hm \in {"drop", "refuse", "dangerous"},
@@ -133,8 +140,8 @@ AmbObs(c, merged) ==
      LET a == c.hs[merged[k][1]]
          b == c.hs[merged[k][2]]
      IN /\ NameOf(a) # NameOf(b)
-        /\ ~(Underscore(a) /\ TrustedFwd(c) /\ InFwdHeaders(c, a))
-        /\ ~(Underscore(b) /\ TrustedFwd(c) /\ InFwdHeaders(c, b))
+        /\ ~(Underscore(a) /\ PeerTrustedFwd(c) /\ InFwdHeaders(c, a))
+        /\ ~(Underscore(b) /\ PeerTrustedFwd(c) /\ InFwdHeaders(c, b))
 
 VARIABLE case
 Init == case \in Cases
